@@ -34,6 +34,10 @@ pub struct VM {
     instructions: Vec<u8>,
     ip: usize,
     bp: u16,
+
+    /// Manages the memory of all heap-allocated objects created by (or handed to) this VM.
+    /// It lives as long as the VM does, so values stored in globals survive from one run to the next.
+    gc: GC,
 }
 
 impl VM {
@@ -49,6 +53,7 @@ impl VM {
             instructions: Vec::new(),
             ip: 0,
             bp: 0,
+            gc: GC::new(),
         }
     }
 
@@ -154,6 +159,15 @@ impl VM {
 
     /// Executes the given Bytecode inside the context of this VM
     pub fn run(&mut self, code: Bytecode) -> Result<Object, Error> {
+        // Take the garbage collector out of the VM for the duration of the run
+        // and put it back whichever way the run ends
+        let mut gc = std::mem::replace(&mut self.gc, GC::new());
+        let result = self.run_code(code, &mut gc);
+        self.gc = gc;
+        result
+    }
+
+    fn run_code(&mut self, code: Bytecode, gc: &mut GC) -> Result<Object, Error> {
         #[cfg(feature = "debug")]
         {
             println!("Bytecode (raw)= \n{:?}", &code.instructions);
@@ -176,9 +190,7 @@ impl VM {
         let constants = code.constants;
         let mut final_result = Object::null();
 
-        // Construct a new garbage collector
-        // And allow to manage memory for constants
-        let gc = &mut GC::new();
+        // Allow the garbage collector to manage memory for constants
         for c in &constants {
             gc.maybe_trace(*c)
         }
